@@ -247,7 +247,8 @@ def run(tier):
                 asg = [tuple((i * (r + 2) + r) % len(VALUES) for i in range(n)) for r in range(len(VALUES))]
             items += [(s, a) for a in asg]
     t = core.Tally()
-    core.run_pool([(MOD, "job", {"items": c, "pairs": True}) for c in core.chunks(items[::-1], core.NPROC * 6)], 0, into=t)
+    core.run_pool([(MOD, "job", {"items": c, "pairs": True}) for c in core.chunks(items[::-1], core.NPROC * 6)] +
+                  [(MOD, "job", {"items": c, "pairs": False}) for c in core.chunks(items, core.NPROC * 2 + 1)], 0, into=t)   # second pass, other order
     core.run_pool([(MOD, "job", {"items": c, "pairs": False}) for c in core.chunks(items[:40], core.NPROC)], 1, into=t)
     cov = {
         "states": t.c["states"], "transitions": t.c["evaluations"], "traces_validated_against_impl": t.c["evaluations"],
